@@ -5,12 +5,12 @@ from .. import impl
 from ..diff import compile_cached, _j, _t
 from ..refprolog import Cyclic, Unspecified, Budget, canon
 from ..runner import Acc, watchdog, Hang
-from ..terms import A, C, F, V, call, conj, TRUE, FAIL, show_clause, show_program, show_term, term_vars
+from ..terms import A, C, F, V, call, conj, TRUE, FAIL, show_clause, show_program, show_term, term_vars, pp
 from ..worlds import ImplWorld, RefWorld, facts_impl, facts_ref
 
 ID = 'C13'
 LEVEL = 'model_checking'
-RULE = ('(lives) the same variable objects asserted again after clear() or into a second engine, after 0..2 other assertions in each life, in 5 shapes: two simultaneous uses of the second fact are independent; (v) values of every kind: a variable bound to each of 15 values (atoms, compounds incl. zero-argument ones, lists, Python constants incl. 0, the empty string, None, (), 0.0) and to compounds NAMED like conventional variable placeholders / internal markers and like every short string literal of the engine source reaches assert_fact / assertz / asserta directly, inside a structure, through an alias chain, as list element, as list tail, twice, next to unbound variables, behind a sibling argument, between list elements; after the binding is undone the fact holds exactly that value. (s) every ordered selection of <= K of the binding operations {X = f(Y), Y = a, X = Y, Y = g(Z), Z = b} with one '
+RULE = ('(lives) the same variable objects asserted again after clear() or into a second engine, after 0..2 other assertions in each life, in 5 shapes: two simultaneous uses of the second fact are independent; (v) values of every kind: a variable bound to each of 17 values (atoms, compounds incl. zero-argument ones, lists, an opaque application object that is equal only to itself, Python constants incl. 0, the empty string, None, (), 0.0) and to compounds NAMED like conventional variable placeholders / internal markers and like every short string literal of the engine source reaches assert_fact / assertz / asserta directly, inside a structure, through an alias chain, as list element, as list tail, twice, next to unbound variables, behind a sibling argument, between list elements; after the binding is undone the fact holds exactly that value. (s) every ordered selection of <= K of the binding operations {X = f(Y), Y = a, X = Y, Y = g(Z), Z = b} with one '
         'assertz of p(X) / p(f(Y)) / p(_) / p(g(X,Y)) / p(g(Y,Y)) (one variable twice) inserted at every position (variables bound before, after, through '
         'a chain, inside a structure), the asserting clause continuing with true / a use p(W) of the fact / fail, run '
         'to exhaustion or abandoned after its first answer; followed by every later use alone, and by every pair (one of 4 uses, then one of 4 probing uses), from {p(a), '
@@ -286,7 +286,7 @@ NSH = 64
 # constants incl. the ones that are false in a boolean context - and every way the variable reaches
 # the fact (directly, inside a structure, through an alias chain, as list element / list tail)
 def value_menu():
-    out = [A('a'), A('[]'), F('f', A('b')), F('foo'), F('f', F('foo'), A('b')), F('.', A('a'), A('[]')), C(0), C(1), C(-1), C(''), C('str'), C(None), C(()), C(0.0), C(2.5)]
+    out = [A('a'), A('[]'), F('f', A('b')), F('foo'), F('f', F('foo'), A('b')), F('.', A('a'), A('[]')), C(HANDLE), F('f', C(HANDLE), A('b')), C(0), C(1), C(-1), C(''), C('str'), C(None), C(()), C(0.0), C(2.5)]
     # compounds whose NAME could mean something to an implementation (a placeholder for variables, an
     # internal marker): conventional ones, and every short string literal of the engine's own source
     for nm in MARKER_NAMES + names_in_engine_source():
@@ -296,6 +296,19 @@ def value_menu():
     return out
 
 
+class Handle:
+    """an opaque handle of the application (a connection, a widget): equal only to itself, not copyable by value"""
+    def __repr__(self):
+        return '<Handle>'
+
+    def __deepcopy__(self, memo):
+        return Handle()
+
+    def __copy__(self):
+        return Handle()
+
+
+HANDLE = Handle()
 MARKER_NAMES = ['$VAR', '$', '_', '_G0', '_0', 'var', 'variable', 'Variable', '?', '$ref', '$cut', 'ref', 'bound', 'copy']
 _ENGINE_NAMES = []
 
@@ -361,7 +374,7 @@ def check_value(val, shape, via):
             'after-a-sibling': ('f', 'h', (('a', 'k'), want_inner)),
             'between-elements': ('f', '.', (('a', 'k'), ('f', '.', (want_inner, ('f', '.', (('a', 'k'), ('a', '[]')))))))}[shape]
     if rows != [(want,)]:
-        return ('asserted-value-lost', 'a variable bound to %r reaches %s as %s; after the binding is undone the fact reads %r, expected %r' % (val[1] if val[0] == 'c' else show_term(val), via, shape, rows, [(want,)]))
+        return ('asserted-value-lost', 'a variable bound to %r reaches %s as %s; after the binding is undone the fact reads %r, expected %r' % (val[1] if val[0] == 'c' else pp(val), via, shape, rows, [(want,)]))
     # and it matches exactly that value: a different constant does not match
     other = yp.atom('something else')
     probe = {'direct': other, 'alias-chain': other, 'in-structure': yp.functor('h', [other, yp.atom('k')]), 'list-element': yp.listpair(other, yp.ATOM_NIL),
@@ -369,7 +382,7 @@ def check_value(val, shape, via):
              'next-to-a-variable': yp.functor('h', [other, yp.variable(), yp.variable()]),
              'after-a-sibling': yp.functor('h', [yp.atom('k'), other]), 'between-elements': yp.makelist([yp.atom('k'), other, yp.atom('k')])}[shape]
     if len(list(yp.query('val', [probe]))) != 0:
-        return ('asserted-value-became-variable', 'a variable bound to %r reaches %s as %s; the stored fact also matches the atom \'something else\' in that place' % (val[1] if val[0] == 'c' else show_term(val), via, shape))
+        return ('asserted-value-became-variable', 'a variable bound to %r reaches %s as %s; the stored fact also matches the atom \'something else\' in that place' % (val[1] if val[0] == 'c' else pp(val), via, shape))
     return None
 
 
